@@ -405,11 +405,12 @@ def compare_rock(sc, o, l):
         if not out.startswith("rebuild=ok"):
             return False
         res = dict(x.split("=", 1) for x in out.split(" ")[1:])
-        torn_in_head = any(c[0] == "n" and 40 < c[2] < 40 + cal[0] for _, c in sc["phases"])
+        torn_in_head = any(c[0] == "n" and 0 < c[2] < 40 + cal[0] for _, c in sc["phases"])
         for k in range(sc["nkeys"]):
             mine, whole = res.get("k%d" % k, "?/?").split("/")
-            if torn_in_head and "x" in whole[2:].split("+") and f["first"][k] != "M":
-                continue         # the torn first piece is served: its reply header is a mix the piece abstraction cannot describe
+            if torn_in_head and whole.startswith("H:") and whole[2:].split("+")[0] == "x":
+                continue         # the torn cell is the first piece of the chain: whether its mix of new and old bytes parses as a
+                                 # reply (hit) or not (swap-in failure, miss) is outside the piece abstraction
             if not same_lookup(f["first"][k], whole, "k%d" % k, vers, cal, slot_size):
                 return False
             if mine != whole and "f" not in mine:      # the per-position model may differ only where a foreign slot is involved
